@@ -156,7 +156,13 @@ impl Default for Observed {
     }
 }
 
-pub fn execute(source: &str, plan: &FaultPlan, clock: &Rc<VClock>) -> Observed {
+/// The step cap of one execution: a fixed budget plus an allowance for the iterations of the
+/// program's storm loops that the reference model counted
+pub fn step_cap_for(pred: &Prediction) -> u64 {
+    STEP_CAP + 200 * pred.storm_iterations
+}
+
+pub fn execute(source: &str, plan: &FaultPlan, clock: &Rc<VClock>, step_cap: u64) -> Observed {
     let mut host = Host::new(HostSettings {
         run_tests: false,
         ..Default::default()
@@ -169,7 +175,7 @@ pub fn execute(source: &str, plan: &FaultPlan, clock: &Rc<VClock>) -> Observed {
         host.stdout.state.lock().unwrap().fail_at = Some((*k - IO_BASE) as u64);
     }
     clock.record_entries.set(false);
-    clock.reset(CostProfile::constant(1), 1, STEP_CAP);
+    clock.reset(CostProfile::constant(1), 1, step_cap);
     let mut out = Observed {
         result: Ok(String::new()),
         ..Default::default()
@@ -224,6 +230,10 @@ const INTERNAL_ERRORS: &[&str] = &[
     "empty call stack",
     "unexpected error",
     "Overflow of the current frame",
+    "Unexpected opcode",
+    "Unexpected meta id",
+    "Instruction access out of bounds",
+    "Out of bounds access",
 ];
 
 fn first_diff<T: PartialEq + std::fmt::Debug>(a: &[T], b: &[T]) -> String {
@@ -253,12 +263,18 @@ pub fn compare(pred: &Prediction, obs: &Observed) -> Option<Violation> {
         return v("panic", p.replace('\n', " "));
     }
     if obs.step_cap {
-        return v("no-return", format!("step cap of {STEP_CAP} instructions reached"));
+        return v("no-return", format!("step cap of {} instructions reached", step_cap_for(pred)));
     }
     if let Err(e) = &obs.result {
         let lower = e.to_lowercase();
         if let Some(x) = INTERNAL_ERRORS.iter().find(|x| lower.contains(&x.to_lowercase())) {
             return v("internal-error", format!("{x}: {e}"));
+        }
+    }
+    for (_, c) in &obs.caught {
+        let lower = c.to_lowercase();
+        if let Some(x) = INTERNAL_ERRORS.iter().find(|x| lower.contains(&x.to_lowercase())) {
+            return v("internal-error", format!("{x} (caught by the script): {c}"));
         }
     }
     if pred.tick_ids != obs.tick_ids && !pred.tick_ids.is_empty() {
@@ -425,7 +441,7 @@ pub fn eval_one(
             finally_on_abrupt_exit: true,
         },
     );
-    let obs = execute(&printed.source, plan, clock);
+    let obs = execute(&printed.source, plan, clock, step_cap_for(&pred));
     let mut verdict = compare(&pred, &obs).map(|v| (v, "C04", false));
     if let Some((v, _, _)) = &verdict
         && pred.abrupt_exit_through_finally
@@ -742,6 +758,15 @@ fn stmt_expr_variants(s: &Stmt) -> Vec<Stmt> {
             out.push(Stmt::Assign(*v, e2.clone()));
             out.extend(expr_variants(e).into_iter().map(|x| Stmt::MatchAssign(*v, x, e2.clone())));
             out.extend(expr_variants(e2).into_iter().map(|x| Stmt::MatchAssign(*v, e.clone(), x)));
+        }
+        Stmt::Storm(v, k, n) => {
+            if *n > 1 {
+                out.push(Stmt::Storm(*v, *k, n / 2));
+                out.push(Stmt::Storm(*v, *k, n - n / 4 - 1));
+            }
+            if *k != 0 {
+                out.push(Stmt::Storm(*v, 0, *n));
+            }
         }
         Stmt::KeyChainCall(v, func, arg, site, form) => {
             out.push(Stmt::Assign(
@@ -1283,7 +1308,14 @@ impl Worker for UnwindWorker {
         // report at most one finding per distinct class for this program
         let mut seen = BTreeSet::new();
         for f in ev.findings {
-            if f.property != self.property {
+            let mine = if self.property == "C05" {
+                // C05, internal-fault clause: generated code executed under fault injection never
+                // raises an internal fault; everything else these runs show is C04's business
+                f.property == "C04" && matches!(f.violation.class.as_str(), "internal-error" | "panic")
+            } else {
+                f.property == self.property
+            };
+            if !mine {
                 continue;
             }
             if !seen.insert(f.violation.class.clone()) {
@@ -1356,6 +1388,7 @@ pub fn prediction_to_json(p: &Prediction) -> Value {
         "stdout": p.stdout,
         "result": match &p.result { Ok(v) => json!({"ok": v}), Err(e) => json!({"err": e}) },
         "error_occurred": p.error_occurred,
+        "storm_iterations": p.storm_iterations,
         "origin_line": p.origin_line,
         "trace_lines": p.trace_lines,
     })
@@ -1388,6 +1421,7 @@ pub fn prediction_from_json(v: &Value) -> Prediction {
             _ => Ok(String::new()),
         },
         error_occurred: v["error_occurred"].as_bool().unwrap_or(true),
+        storm_iterations: v["storm_iterations"].as_u64().unwrap_or(0),
         origin_line: v["origin_line"].as_u64().map(|x| x as u32),
         trace_lines: v["trace_lines"]
             .as_array()
@@ -1404,7 +1438,7 @@ pub fn replay(doc: &Value) -> (Option<Violation>, u64) {
     let plan = plan_from_json(&sc["fault_plan"]);
     let expected = prediction_from_json(&sc["expected"]);
     let clock = host::install_clock();
-    let obs = execute(source, &plan, &clock);
+    let obs = execute(source, &plan, &clock, step_cap_for(&expected));
     let mut d = Digest::new();
     for m in &obs.markers {
         d.u64(*m as u64);
